@@ -638,6 +638,13 @@ fn corr(seed: u64, n: usize) {
         o.dec::<Context>("dec-malformed", "ctx", &bs);
     }
 
+    // Context::read_from enforces the limits of Context::new: trace length and LDE domain must fit into 32 bits
+    for (e, bf) in [(31u8, 1u8), (31, 2), (32, 2), (33, 2), (24, 128), (25, 128), (25, 64), (63, 2), (30, 4), (30, 2)] {
+        let mut bs = vec![1u8, 0, 0, e, 0, 0, 8];
+        bs.extend(M64.to_le_bytes());
+        bs.extend([1u8, bf, 0, 1, 2, 0]);
+        o.dec::<Context>("dec-ctx-boundary", "ctx", &bs);
+    }
     // --- Commitments / Queries / OodFrame / FriProof built with the real constructors
     for n in [1usize, 2, 3, 32, 255, 256, 65533, 65534] {
         let c = mk_com(&r.bytes(n));
@@ -679,6 +686,8 @@ fn corr(seed: u64, n: usize) {
         enc_dec(o, r, "fri", &args_fri(&p), &p, 12);
         let p = mk_fri::<QuadExtension<F64>>(r, 7, 4, 4, 15, 9);
         enc_dec(o, r, "fri", &args_fri(&p), &p, 12);
+        // num_partitions is a log2: 63 is the largest accepted exponent
+        for np in [0u8, 1, 62, 63, 64, 65, 128, 255] { let bs = vec![0u8, 0, 0, np]; o.dec::<FriProof>("dec-fri-boundary", "fri", &bs); }
         // a layer with zero value bytes is rejected by the reader
         let bs = vec![1u8, 0, 0, 0, 0, 0, 0, 0, 0, 0, 0, 0];
         o.dec::<FriProof>("dec-malformed", "fri", &bs);
